@@ -160,6 +160,17 @@ func scenC10(r *Run, job *Job) {
 			r.Check(x.Call.EndStep == x.ArrivalStep, "C10.extra-not-immediate", "extra caller %d arrived at step %d but was refused only at step %d", x.N, x.ArrivalStep, x.Call.EndStep)
 		}
 	}
+	// a refused caller has no effect on the event of the invocation in flight
+	for _, a := range e.Actors() {
+		if !a.IsRT {
+			continue
+		}
+		for _, d := range a.Deliveries {
+			if d.Inv != nil && d.Type == "invoke" {
+				r.Check(bytes.Equal(d.Body, d.Inv.Payload), "C10.effect-on-event", "invocation %d: the runtime was handed %s, its caller posted %s", d.Inv.N, summarize(d.Body), summarize(d.Inv.Payload))
+			}
+		}
+	}
 	// intervals of dispatched invocations pairwise disjoint
 	var disp []*Invocation
 	for _, inv := range w.Invokes {
